@@ -146,8 +146,24 @@ theorem createObject_ok (d : Doc) (pat : Text) (o : Obj) (d' : Doc) (id : Nat) (
   unfold createObject at h
   split at h
   · injection h with h; injection h with h1 h2; subst h1; subst h2; exact ⟨rfl, rfl, rfl⟩
-  · cases h
   · injection h with h; injection h with h1 h2; subst h1; subst h2; exact ⟨rfl, rfl, rfl⟩
+
+/-- creation raises nothing, whatever the file store holds (after fixes/C19-new-objects-go-to-iwa-members.patch) -/
+theorem createObject_total (d : Doc) (pat : Text) (o : Obj) :
+    ∃ d', createObject d pat o = .ok (d', d.maxId + 1) ∧ d'.maxId = d.maxId + 1 ∧
+      d'.objects = dictSet d.objects (d.maxId + 1) o := by
+  unfold createObject
+  split
+  · exact ⟨_, rfl, rfl, rfl⟩
+  · exact ⟨_, rfl, rfl, rfl⟩
+
+theorem createOthers_total (ps : List Text) (d : Doc) : ∃ d', createOthers ps d = .ok d' := by
+  induction ps generalizing d with
+  | nil => exact ⟨d, rfl⟩
+  | cons p ps ih =>
+    obtain ⟨d1, h1, _⟩ := createObject_total d p .other
+    obtain ⟨d2, h2⟩ := ih d1
+    exact ⟨d2, by simp only [createOthers, h1, bind, Except.bind]; exact h2⟩
 
 theorem fresh_of_bound {P : List Nat} {d : Doc} (hv : ValidP P d) : d.maxId + 1 ∉ dictKeys d.objects := by
   intro h
